@@ -546,6 +546,17 @@ theorem d2_fetch_regression_counterexample :
     fetchRead false 10 0 idealBody ⟨fetchErrV10, fetchErrV10.length⟩ = (.kafka 6, ⟨[0,0,0,9, 0,0,0,0], 8⟩) ∧
     fetchRead true 10 0 idealBody ⟨fetchErrV10, fetchErrV10.length⟩ = (.kafka 6, ⟨[], 0⟩) := by decide
 
+/-- C02-D33: a reader that stops on a broker-reported error (or whose caller closes the batch early) leaves the rest of
+the response to `Batch.close`; when that cannot be skipped — here the stream ends 3 bytes short — the code before the fix
+dropped the error of `msgs.discard()`: kafka error 7, Conn KEPT in mid-response (first line); now: failed and closed. -/
+def stopsEarly : Body := { first := fun s => (.ok (), s), rest := fun s => (.kafka 7, s) }
+def shortOf3 : Bytes := [0,0,0,40, 0,0,0,1] ++ (atWatermarkBody.take 33)   -- announces 36 bytes, 33 arrive
+theorem batch_close_discard_counterexample :
+    ((connFetch false 2 4 stopsEarly ⟨shortOf3, 1, false⟩).1 = .kafka 7 ∧
+     (connFetch false 2 4 stopsEarly ⟨shortOf3, 1, false⟩).2.closed = false) ∧
+    ((connFetch true 2 4 stopsEarly ⟨shortOf3, 1, false⟩).1.isFail = true ∧
+     (connFetch true 2 4 stopsEarly ⟨shortOf3, 1, false⟩).2.closed = true) := by decide
+
 theorem idealBody_conserves : idealBody.Conserves := by
   constructor
   · intro s; unfold idealBody; simp only; split <;> exact Adv.refl s
